@@ -1,4 +1,5 @@
 import Swim.Util.Parse
+import Swim.Model.Handoff
 import Swim.Model.Ingest
 /-! Driver side of the C13 / C14 correspondences. -/
 namespace Swim.Drv.Ingest
@@ -55,6 +56,24 @@ def handleCaps (fs : List (String × String)) : String :=
   let bads := res.filter fun r => !r.endsWith "=ok"
   verdict bads.isEmpty (if bads.isEmpty then none else some ("cap-not-enforced:" ++ String.intercalate "," bads)) true "caps" ""
 
+/-- the handoff queues against `Swim.Handoff`: what took effect once the parked handler ran, in order -/
+def handleHandoff (fs : List (String × String)) : String := Id.run do
+  let some depth := getNat fs "depth" | return "PARSE depth"
+  let some msgs := (splitNE (getD fs "msgs" "") ",").mapM (fun x => match x.splitOn ":" with
+    | [k, tag, ok] => tag.toNat?.map fun t => ({ kind := if k == "a" then .alive else .other, tag := t, srcOk := ok == "1" } : Swim.Handoff.Msg)
+    | _ => none) | return "PARSE msgs"
+  let q := Swim.Handoff.pushes depth {} msgs
+  let model := String.intercalate "." ((Swim.Handoff.effects q).map fun (k, t) => (if k == .alive then "a" else "o") ++ toString t)
+  let model := if model == "" then "-" else model
+  let got := getD fs "log" "-"
+  let queued := (getNat fs "queued").getD 0
+  let outsiderIn := msgs.any fun m => m.kind == .alive && !m.srcOk && (got.splitOn ".").contains s!"a{m.tag}"
+  let bad : Option String :=
+    if queued > 2 * depth then some s!"handoff-queues-hold-{queued}-messages-for-depth-{depth}"
+    else if outsiderIn then some "alive-from-disallowed-source-took-effect-via-the-handoff-queue"
+    else none
+  return verdict (model == got) bad (msgs.length ≥ 8) s!"handoff-d{depth}" (if model == got then "" else s!"model={model}")
+
 def handleC13 (kind : String) (fs : List (String × String)) : String :=
   match kind with
   | "pkt" => handlePkt fs
@@ -64,6 +83,7 @@ def handleC13 (kind : String) (fs : List (String × String)) : String :=
   | "fld" => handleOracle fs "fields"
   | "stall" => handleOracle fs s!"stall-{getD fs "enc" "?"}"
   | "nacks" => handleOracle fs "nacks"
+  | "handoff" => handleHandoff fs
   | _ => "PARSE kind"
 
 
